@@ -722,3 +722,251 @@ theorem parseLine_lineOf (F : FloatCodec) (mult : Int) (p : SPoint) (hd : LPDoma
     hfe, hun, hd.tagsSorted, hd.fieldsSorted, h0ok.2.2.2, if_false, Bool.false_eq_true]
 
 end Kap.C18
+namespace Kap.C18
+open List
+
+/-! ## The writer's line is one token for `scanLineProtocolLine` -/
+
+theorem lpf_one (s : LPState) (c : UInt8) :
+    lpFinal s [c] = if c = BS then none else if c = NL ∧ (!s.quoted) = true then none else some (lpStep s c) := by
+  simp [lpFinal]
+
+theorem lpf_two (s : LPState) (c d : UInt8) (r : Bytes) :
+    lpFinal s (c :: d :: r) =
+      if c = BS then lpFinal s r else if c = NL ∧ (!s.quoted) = true then none else lpFinal (lpStep s c) (d :: r) := by
+  simp [lpFinal]
+
+theorem lpf_cons (s : LPState) (c : UInt8) (t : Bytes) (h1 : c ≠ BS) (h2 : ¬ (c = NL ∧ (!s.quoted) = true)) :
+    lpFinal s (c :: t) = lpFinal (lpStep s c) t := by
+  cases t with
+  | nil => rw [lpf_one, if_neg h1, if_neg h2]; rfl
+  | cons d r => rw [lpf_two, if_neg h1, if_neg h2]
+
+theorem lpf_pair (s : LPState) (y : UInt8) (t : Bytes) : lpFinal s (BS :: y :: t) = lpFinal s t := by
+  rw [lpf_two, if_pos rfl]
+
+/-- A byte that `scanLineProtocolLine` passes over without changing its state. -/
+def Inert (s : LPState) (c : UInt8) : Prop := c ≠ BS ∧ ¬ (c = NL ∧ (!s.quoted) = true) ∧ lpStep s c = s
+
+theorem lpf_inert (s : LPState) (c : UInt8) (t : Bytes) (h : Inert s c) : lpFinal s (c :: t) = lpFinal s t := by
+  rw [lpf_cons s c t h.1 h.2.1, h.2.2]
+
+theorem lpf_escBy (E : UInt8 → Prop) [DecidablePred E] (st : LPState) (s t : Bytes)
+    (h : ∀ c ∈ s, ¬ E c → Inert st c) : lpFinal st (escBy E s ++ t) = lpFinal st t := by
+  induction s with
+  | nil => simp [escBy]
+  | cons c r ih =>
+    have ih' := ih (fun x hx => h x (by simp [hx]))
+    have e : escBy E (c :: r) ++ t = (if E c then [BS, c] else [c]) ++ (escBy E r ++ t) := by simp [escBy]
+    rw [e]
+    by_cases hc : E c
+    · simp only [if_pos hc, List.cons_append, List.nil_append, lpf_pair, ih']
+    · simp only [if_neg hc, List.cons_append, List.nil_append]
+      rw [lpf_inert st c _ (h c (by simp) hc), ih']
+
+theorem lpf_block (st : LPState) (s t : Bytes) (h : ∀ c ∈ s, Inert st c) : lpFinal st (s ++ t) = lpFinal st t := by
+  induction s with
+  | nil => rfl
+  | cons c r ih => rw [List.cons_append, lpf_inert st c _ (h c (by simp)), ih (fun x hx => h x (by simp [hx]))]
+
+/-- In the key section (before the first unescaped space) everything but a backslash, a space and a line feed is inert. -/
+theorem inert_key (c : UInt8) (h1 : c ≠ BS) (h2 : c ≠ NL) (h3 : c ≠ SP) : Inert {} c := by
+  refine ⟨h1, fun h => h2 h.1, ?_⟩
+  simp [lpStep, h3]
+
+/-- In the field section, outside quotes. -/
+theorem inert_field (e k : Nat) (c : UInt8) (h1 : c ≠ BS) (h2 : c ≠ NL) (h4 : c ≠ EQ) (h5 : c ≠ COMMA) (h6 : c ≠ DQ) :
+    Inert ⟨false, true, e, k⟩ c := by
+  refine ⟨h1, fun h => h2 h.1, ?_⟩
+  simp [lpStep, h2, h4, h5, h6]
+
+/-- Inside a quoted value: everything but a backslash and a quote. -/
+theorem inert_quoted (e k : Nat) (c : UInt8) (h1 : c ≠ BS) (h6 : c ≠ DQ) : Inert ⟨true, true, e, k⟩ c := by
+  refine ⟨h1, by simp, ?_⟩
+  by_cases hn : c = NL
+  · simp [lpStep, hn]
+  · simp [lpStep, hn, h6]
+
+
+theorem lpf_escTag_key (s t : Bytes) (hb : BS ∉ s) (hn : NL ∉ s) : lpFinal {} (escTag s ++ t) = lpFinal {} t := by
+  rw [escTag_eq]
+  apply lpf_escBy
+  intro c hc hE
+  exact inert_key c (fun e => hb (e ▸ hc)) (fun e => hn (e ▸ hc)) (fun e => hE (by simp [e]))
+
+theorem lpf_escMeas_key (s t : Bytes) (hb : BS ∉ s) (hn : NL ∉ s) : lpFinal {} (escMeas s ++ t) = lpFinal {} t := by
+  rw [escMeas_eq]
+  apply lpf_escBy
+  intro c hc hE
+  exact inert_key c (fun e => hb (e ▸ hc)) (fun e => hn (e ▸ hc)) (fun e => hE (by simp [e]))
+
+theorem lpf_tags (tags : Tags) (t : Bytes)
+    (h : ∀ kv ∈ tags, BS ∉ kv.1 ∧ BS ∉ kv.2 ∧ NL ∉ kv.1 ∧ NL ∉ kv.2) :
+    lpFinal {} ((tags.map tagChunk).flatMap (fun y => COMMA :: y) ++ t) = lpFinal {} t := by
+  induction tags with
+  | nil => rfl
+  | cons kv r ih =>
+    obtain ⟨h1, h2, h3, h4⟩ := h kv (by simp)
+    simp only [List.map_cons, List.flatMap_cons, List.cons_append, List.append_assoc, tagChunk]
+    rw [lpf_inert {} COMMA _ (inert_key COMMA (by decide) (by decide) (by decide)), lpf_escTag_key _ _ h1 h3,
+        lpf_inert {} EQ _ (inert_key EQ (by decide) (by decide) (by decide)), lpf_escTag_key _ _ h2 h4]
+    exact ih (fun x hx => h x (by simp [hx]))
+
+theorem lpf_value (F : FloatCodec) (v : FV) (e : Nat) (t : Bytes) (hv : ValOK F v)
+    (hnl : ∀ b, v = .float b → NL ∉ F.fmt b) :
+    lpFinal ⟨false, true, e + 1, e⟩ (renderFV F v ++ t) = lpFinal ⟨false, true, e + 1, e⟩ t := by
+  have plain : ∀ s : Bytes, (∀ x ∈ s, (x ≠ BS ∧ x ≠ DQ ∧ x ≠ COMMA ∧ x ≠ SP ∧ x ≠ EQ) ∧ x ≠ NL) →
+      lpFinal ⟨false, true, e + 1, e⟩ (s ++ t) = lpFinal ⟨false, true, e + 1, e⟩ t := by
+    intro s hs
+    apply lpf_block
+    intro c hc
+    obtain ⟨⟨a1, a2, a3, _, a5⟩, a6⟩ := hs c hc
+    exact inert_field _ _ c a1 a6 a5 a3 a2
+  cases v with
+  | float b => exact plain _ (fun x hx => ⟨hv.2 x hx, fun e' => hnl b rfl (e' ▸ hx)⟩)
+  | int i =>
+    apply plain
+    intro x hx
+    unfold renderFV at hx
+    rcases List.mem_append.mp hx with h | h
+    · exact ⟨intDigits_plain i x h, fun e' => nl_intDigits i (e' ▸ h)⟩
+    · have := List.mem_singleton.mp h; subst this; decide
+  | str s =>
+    show lpFinal _ (DQ :: (escStr s ++ [DQ]) ++ t) = _
+    rw [List.cons_append, lpf_cons _ DQ _ (by decide) (by simp; decide)]
+    have d1 : DQ ≠ NL := by decide
+    have d2 : DQ ≠ EQ := by decide
+    have d3 : DQ ≠ COMMA := by decide
+    have d4 : DQ ≠ SP := by decide
+    have h1 : lpStep ⟨false, true, e + 1, e⟩ DQ = ⟨true, true, e + 1, e⟩ := by
+      simp [lpStep, d1, d2, d3, d4]
+    rw [h1, List.append_assoc, escStr_eq, lpf_escBy]
+    · show lpFinal _ (DQ :: t) = _
+      rw [lpf_cons _ DQ _ (by decide) (by simp)]
+      have h2 : lpStep ⟨true, true, e + 1, e⟩ DQ = ⟨false, true, e + 1, e⟩ := by
+        simp [lpStep, d1, d2, d3, d4]
+      rw [h2]
+    · intro c _ hE
+      exact inert_quoted _ _ c (fun e' => hE (by simp [e'])) (fun e' => hE (by simp [e']))
+  | bool b =>
+    apply plain
+    intro x hx
+    cases b
+    · have hx' : x ∈ ([102, 97, 108, 115, 101] : Bytes) := hx
+      clear hx; revert x; decide
+    · have hx' : x ∈ ([116, 114, 117, 101] : Bytes) := hx
+      clear hx; revert x; decide
+
+
+theorem lpf_fieldChunk (F : FloatCodec) (kv : Bytes × FV) (e : Nat) (t : Bytes)
+    (hb : BS ∉ kv.1) (hn : NL ∉ kv.1) (hv : ValOK F kv.2) (hnl : ∀ b, kv.2 = .float b → NL ∉ F.fmt b) :
+    lpFinal ⟨false, true, e, e⟩ (fieldChunk F kv ++ t) = lpFinal ⟨false, true, e + 1, e⟩ t := by
+  unfold fieldChunk
+  rw [List.append_assoc, escKey_eq, lpf_escBy]
+  · rw [List.cons_append, lpf_cons _ EQ _ (by decide) (by simp; decide)]
+    have d1 : EQ ≠ NL := by decide
+    have d4 : EQ ≠ SP := by decide
+    have h1 : lpStep ⟨false, true, e, e⟩ EQ = ⟨false, true, e + 1, e⟩ := by simp [lpStep, d1, d4]
+    rw [h1]
+    exact lpf_value F kv.2 e t hv hnl
+  · intro c hc hE
+    exact inert_field _ _ c (fun e' => hb (e' ▸ hc)) (fun e' => hn (e' ▸ hc)) (fun e' => hE (by simp [e']))
+      (fun e' => hE (by simp [e'])) (fun e' => hE (by simp [e']))
+
+theorem lpf_fields (F : FloatCodec) (fs : Fields) (hne : fs ≠ [])
+    (h : ∀ kv ∈ fs, BS ∉ kv.1 ∧ NL ∉ kv.1 ∧ ValOK F kv.2 ∧ (∀ b, kv.2 = .float b → NL ∉ F.fmt b)) :
+    ∀ (e : Nat) (t : Bytes), ∃ e', lpFinal ⟨false, true, e, e⟩ (joinWith COMMA (fs.map (fieldChunk F)) ++ t) =
+      lpFinal ⟨false, true, e' + 1, e'⟩ t := by
+  induction fs with
+  | nil => exact absurd rfl hne
+  | cons kv r ih =>
+    intro e t
+    obtain ⟨h1, h2, h3, h4⟩ := h kv (by simp)
+    cases r with
+    | nil =>
+      exact ⟨e, by simp only [List.map_cons, List.map_nil, joinWith]; exact lpf_fieldChunk F kv e t h1 h2 h3 h4⟩
+    | cons kv' r' =>
+      obtain ⟨e', he'⟩ := ih (by simp) (fun x hx => h x (by simp [hx])) (e + 1) t
+      refine ⟨e', ?_⟩
+      simp only [List.map_cons, joinWith, List.append_assoc, List.cons_append] at he' ⊢
+      rw [lpf_fieldChunk F kv e _ h1 h2 h3 h4, lpf_cons _ COMMA _ (by decide) (by simp; decide)]
+      have d1 : COMMA ≠ NL := by decide
+      have d2 : COMMA ≠ EQ := by decide
+      have d4 : COMMA ≠ SP := by decide
+      have hs : lpStep ⟨false, true, e + 1, e⟩ COMMA = ⟨false, true, e + 1, e + 1⟩ := by simp [lpStep, d1, d2, d4]
+      rw [hs]
+      exact he'
+
+/-- What the point must satisfy beyond `LPDomain` so that its line is one token: no line feed in a NAME
+(string field values may contain any), float texts without line feed. -/
+structure LineDomain (F : FloatCodec) (p : SPoint) : Prop where
+  dom : LPDomain F p
+  nameNL : NL ∉ p.name
+  tagsNL : ∀ kv ∈ p.tags, NL ∉ kv.1 ∧ NL ∉ kv.2
+  fkeysNL : ∀ kv ∈ p.fields, NL ∉ kv.1
+  floatNL : FloatTextClean F p
+
+/-- **The line that the writer produces for a point of the domain is exactly one token of
+`scanLineProtocolLine`**, whatever line feeds, quotes, commas … its string field values contain. -/
+theorem lpClosed_lineOf (F : FloatCodec) (mult : Int) (p : SPoint) (h : LineDomain F p) :
+    lpClosed (lineOf F mult p) = true := by
+  have hd := h.dom
+  have hline : lineOf F mult p =
+      escMeas p.name ++ ((p.tags.map tagChunk).flatMap (fun y => COMMA :: y) ++
+        SP :: (joinWith COMMA (p.fields.map (fieldChunk F)) ++ (SP :: intDigits (p.time.tdiv mult) ++ []))) := by
+    have hK := key_eq p.name p.tags hd.name_bs (fun kv hkv => (hd.tags kv hkv).2.2.1)
+    rw [joinWith_flat] at hK
+    simp only [lineOf, hK, fieldBytes, fieldChunk, List.append_assoc, List.append_nil, List.cons_append]
+    rfl
+  obtain ⟨e', he'⟩ := lpf_fields F p.fields hd.fields_ne
+    (fun kv hkv => ⟨(hd.fkeys kv hkv).2, h.fkeysNL kv hkv, hd.vals kv hkv, fun b hb => h.floatNL kv hkv b hb⟩) 0
+    (SP :: intDigits (p.time.tdiv mult) ++ [])
+  have hst : lpStep {} SP = ⟨false, true, 0, 0⟩ := by simp [lpStep]
+  have htail : lpFinal ⟨false, true, e' + 1, e'⟩ (SP :: intDigits (p.time.tdiv mult) ++ []) =
+      some ⟨false, true, e' + 1, e'⟩ := by
+    rw [lpf_block _ _ [] ?_]
+    · rfl
+    · intro c hc
+      rcases List.mem_cons.mp hc with hc | hc
+      · subst hc; exact inert_field _ _ SP (by decide) (by decide) (by decide) (by decide) (by decide)
+      · obtain ⟨a1, a2, a3, _, a5⟩ := intDigits_plain _ c hc
+        exact inert_field _ _ c a1 (fun e'' => nl_intDigits _ (e'' ▸ hc)) a5 a3 a2
+  unfold lpClosed
+  rw [hline, lpf_escMeas_key _ _ hd.name_bs h.nameNL,
+      lpf_tags _ _ (fun kv hkv => ⟨(hd.tags kv hkv).2.1, (hd.tags kv hkv).2.2.2, (h.tagsNL kv hkv).1, (h.tagsNL kv hkv).2⟩),
+      lpf_cons _ SP _ (by decide) (by simp; decide), hst, he', htail]
+  rfl
+
+end Kap.C18
+
+namespace Kap.C18
+open List
+
+/-- A point of the domain to which the clause of finding `stream-newline-framing` does not apply (no line feed in a
+name, no carriage return at the end of db/rp) and whose lines fit the Scanner has a clean frame — its string field
+values may contain line feeds. -/
+theorem frame_clean_of_point (F : FloatCodec) (mult : Int) (p : SPoint) (hdom : LPDomain F p)
+    (hF : FloatTextClean F p) (hd : p.dirty = false) (hsz : FitsScanner F mult p) : (frameOf F mult p).clean := by
+  have hd' := hd
+  simp only [SPoint.dirty, Bool.or_eq_false_iff] at hd'
+  obtain ⟨⟨⟨⟨⟨⟨hdb, hrp⟩, hcdb⟩, hcrp⟩, hname⟩, htags⟩, hfields⟩ := hd'
+  have cr : ∀ s : Bytes, endsCR s = false → s.getLast? ≠ some CR := by
+    intro s h e; simp [endsCR, e] at h
+  have hline : LineDomain F p := {
+    dom := hdom
+    nameNL := hasNL_false _ hname
+    tagsNL := by
+      intro kv hkv
+      have := List.any_eq_false.mp htags kv hkv
+      simp only [Bool.or_eq_true, not_or, Bool.not_eq_true] at this
+      exact ⟨hasNL_false _ this.1, hasNL_false _ this.2⟩
+    fkeysNL := by
+      intro kv hkv
+      have := List.any_eq_false.mp hfields kv hkv
+      simp only [Bool.not_eq_true] at this
+      exact hasNL_false _ this
+    floatNL := hF }
+  exact ⟨⟨hasNL_false _ hdb, cr _ hcdb, hsz.1⟩, ⟨hasNL_false _ hrp, cr _ hcrp, hsz.2.1⟩,
+         ⟨lpClosed_lineOf F mult p hline, line_last_not_CR F mult p, hsz.2.2⟩⟩
+
+end Kap.C18
